@@ -7,7 +7,6 @@ package directive
 import (
 	"fmt"
 	"regexp"
-	"slices"
 	"strings"
 
 	"github.com/roddhjav/apparmor.d/pkg/prebuild"
@@ -43,12 +42,11 @@ func (s Stack) Apply(opt *Option, profile string) (string, error) {
 		return "", fmt.Errorf("no profile to stack")
 	}
 	t := opt.ArgList[0]
+	cleanRules := regCleanStakedRules
 	if t != "X" {
-		regCleanStakedRules = slices.Insert(regCleanStakedRules, 0,
-			util.ToRegexRepl([]string{
-				`(?m)^.*(|P|p)(|U|u)(|i)x,.*$`, ``, // Remove X transition rules
-			})...,
-		)
+		cleanRules = append(util.ToRegexRepl([]string{
+			`(?m)^.*(|P|p)(|U|u)(|i)x,.*$`, ``, // Remove X transition rules
+		}), regCleanStakedRules...)
 	} else {
 		delete(opt.ArgMap, t)
 	}
@@ -61,7 +59,7 @@ func (s Stack) Apply(opt *Option, profile string) (string, error) {
 			return "", fmt.Errorf("no profile found in %s", name)
 		}
 		stackedRules := m[1]
-		stackedRules = regCleanStakedRules.Replace(stackedRules)
+		stackedRules = cleanRules.Replace(stackedRules)
 		res += "  # Stacked profile: " + name + "\n" + stackedRules + "\n"
 	}
 
